@@ -1,9 +1,12 @@
 package main
 
 import (
+	"crypto/sha1"
+	"encoding/hex"
 	"fmt"
 	"go/ast"
 	"go/constant"
+	"go/printer"
 	"go/token"
 	"go/types"
 	"os"
@@ -42,6 +45,7 @@ type World struct {
 	SitesExamined int
 
 	longLivedCache map[*types.TypeName]bool
+	overlay        map[string][]byte
 }
 
 func relPkg(path string) string {
@@ -104,7 +108,7 @@ func Load(o LoadOpts) (*World, error) {
 	if len(pkgs) < 95 {
 		return nil, fmt.Errorf("only %d packages loaded from %s (expected >= 95): refusing a vacuous analysis", len(pkgs), o.Dir)
 	}
-	w := &World{RepoDir: o.Dir, Pkgs: pkgs, PkgBy: map[string]*packages.Package{}, Funcs: map[string]*ssa.Function{},
+	w := &World{RepoDir: o.Dir, overlay: o.Overlay, Pkgs: pkgs, PkgBy: map[string]*packages.Package{}, Funcs: map[string]*ssa.Function{},
 		AllFuncs: map[*ssa.Function]bool{}, FuncsAnalysed: map[*ssa.Function]bool{}}
 	for _, p := range pkgs {
 		w.PkgBy[relPkg(p.PkgPath)] = p
@@ -147,6 +151,25 @@ func Load(o LoadOpts) (*World, error) {
 // funcAlias: functions that were recognised as renamed anchors keep answering to the name the rule tables know.
 var funcAlias = map[*ssa.Function]string{}
 var aliasNotes []string
+
+// recordPats (freeze mode only): every name pattern the rules matched against; the repo functions they name are frozen
+// as anchors so that a rename of a callee named in a pattern is recovered like a rename of an anchored function.
+var recordPats map[string]bool
+
+// bodyFingerprint: hash of the printed body of a source function (whitespace-insensitive); "" when it has none.
+func bodyFingerprint(w *World, fn *ssa.Function) string {
+	fd, ok := fn.Syntax().(*ast.FuncDecl)
+	if !ok || fd.Body == nil {
+		return ""
+	}
+	var sb strings.Builder
+	printer.Fprint(&sb, w.Fset, fd.Body)
+	h := sha1.Sum([]byte(strings.Join(strings.Fields(sb.String()), "")))
+	return hex.EncodeToString(h[:6])
+}
+
+// declAlias: frozen key of a renamed anchor -> its current name (for the rules that look declarations up by name)
+var declAlias = map[string]string{}
 
 func sigFingerprint(fn *ssa.Function) string {
 	q := func(p *types.Package) string { return p.Path() }
@@ -198,11 +221,22 @@ func (w *World) recoverRenamed() {
 				cands = append(cands, k)
 			}
 		}
+		if len(cands) > 1 && frozenBodies[old] != "" {
+			// several functions share the signature: the one whose body is unchanged is the renamed anchor
+			var same []string
+			for _, k := range cands {
+				if bodyFingerprint(w, w.Funcs[k]) == frozenBodies[old] {
+					same = append(same, k)
+				}
+			}
+			cands = same
+		}
 		if len(cands) != 1 {
 			continue
 		}
 		fn := w.Funcs[cands[0]]
 		funcAlias[fn] = old
+		declAlias[old] = cands[0][strings.LastIndexByte(cands[0], '.')+1:]
 		w.Funcs[old] = fn
 		for _, a := range fn.AnonFuncs {
 			w.Funcs[FuncKey(a)] = a
@@ -339,6 +373,9 @@ func (w *World) FnPos(fn *ssa.Function) string {
 // nameMatch: does canonical name `full` match pattern `pat`? A pattern matches when equal or when it is a
 // suffix of full starting at a '.' or '/' boundary.
 func nameMatch(full, pat string) bool {
+	if recordPats != nil {
+		recordPats[strings.TrimPrefix(pat, "call:")] = true
+	}
 	if full == pat {
 		return true
 	}
@@ -444,3 +481,5 @@ func (w *World) ConstAtom(pkgRel, name string) string {
 	}
 	return "const:" + c.Val().ExactString()
 }
+
+func readFile(name string) ([]byte, error) { return os.ReadFile(name) }
